@@ -94,3 +94,24 @@ class TextLike(CustomSchema[Props]):
 
 register_type("mc_num", NumLike)
 register_type("mc_text", TextLike)
+
+
+# A user subclass of a built-in type (no overrides): == / != must stay coherent for it (C15).
+from d42.declaration.types import IntSchema  # noqa: E402
+
+
+class PortSchema(IntSchema):
+    pass
+
+
+# A user subclass of StrSchema that tightens one refinement (lengths above 2 are refused):
+# refinements applied in any order must keep going through it (C11).
+from d42.declaration import DeclarationError  # noqa: E402
+from d42.declaration.types import StrSchema  # noqa: E402
+
+
+class CappedStr(StrSchema):
+    def len(self, *args: Any) -> "CappedStr":
+        if any(isinstance(x, int) and not isinstance(x, bool) and x > 2 for x in args):
+            raise DeclarationError("CappedStr: lengths above 2 are not allowed")
+        return super().len(*args)
